@@ -384,7 +384,46 @@ func runC10(r *Report, rng *rand.Rand, thorough bool) {
 					continue
 				}
 				if old {
-					continue // the legacy mode embeds the members; only required not to fail
+					// the legacy mode embeds the referenced members and inlines the others, so the field list depends on which
+					// members are references. What it must keep in every order: when an inline member of type object allows additional
+					// properties the merged struct holds them (field AdditionalProperties), and a struct that has the field
+					// (tagged json:"-") also has the accessors and the custom (un)marshallers that fill and emit it - a field
+					// without them silently drops every additional member of a valid instance
+					if p, perr := parseGo(code); perr == nil {
+						fields, isStruct := structFields(p, "Merged")
+						hasField := false
+						for _, f := range fields {
+							if f.GoName == "AdditionalProperties" {
+								hasField = true
+							}
+						}
+						decl := map[string]bool{}
+						for _, dn := range p.declNames() {
+							decl[dn] = true
+						}
+						nm := 0
+						for _, mn := range []string{"Get", "Set", "UnmarshalJSON", "MarshalJSON"} {
+							if decl["func Merged."+mn] {
+								nm++
+							}
+						}
+						inlineAddl := false
+						if nest == "flat" {
+							for pi, mi := range perm {
+								if pi%2 == 1 && members[mi].Type == "object" && (members[mi].Addl == "true" || members[mi].Addl == "s" || members[mi].Addl == "i") {
+									inlineAddl = true
+								}
+							}
+						}
+						r.Dist[fmt.Sprintf("old_mode_additional_properties_field=%v", hasField)]++
+						if isStruct && hasField && nm != 4 {
+							r.Violate("allof_old_mode_additional_properties_dropped", fmt.Sprintf("old merge mode, members %v order %v: the merged struct has the field AdditionalProperties but %d of the 4 methods Get / Set / UnmarshalJSON / MarshalJSON", members, perm, nm), replay)
+						}
+						if isStruct && inlineAddl && !hasField {
+							r.Violate("allof_old_mode_additional_properties_dropped", fmt.Sprintf("old merge mode, members %v order %v: an inline member allows additional properties, the merged struct has no field for them", members, perm), replay)
+						}
+					}
+					continue
 				}
 				p, _ := parseGo(code)
 				fields, ok := structFields(p, "Merged")
@@ -458,6 +497,93 @@ func runC10(r *Report, rng *rand.Rand, thorough bool) {
 				}
 			}
 		}
+	}
+	// ---- the legacy merge and additional properties: EVERY list of 1-3 inline object members over {none, true, string,
+	// integer} generated with old-merge-schemas; observed = rejected / no field / the value type of the field, compared with
+	// the model's fold (Model/Merge.v v1_addl) and with the statement (kept as soon as some member has them, in every order)
+	{
+		vcases := NewCases("cases_C10_legacy_addl", "From V Require Import Model.Merge Corr.Eval.", "list (option string) * option (option string)", "mismatches_v1_addl")
+		kinds := []string{"", "true", "s", "i"}
+		goOf := map[string]string{"true": "interface{}", "s": "string", "i": "int"}
+		var lists [][]string
+		for _, a := range kinds {
+			lists = append(lists, []string{a})
+			for _, b := range kinds {
+				lists = append(lists, []string{a, b})
+				for _, c := range kinds {
+					lists = append(lists, []string{a, b, c})
+				}
+			}
+		}
+		for _, l := range lists {
+			var allOf []any
+			var terms []string
+			for i, k := range l {
+				m := map[string]any{"type": "object", "properties": map[string]any{fmt.Sprintf("p%d", i): map[string]any{"type": "string"}}}
+				switch k {
+				case "true":
+					m["additionalProperties"] = true
+				case "s":
+					m["additionalProperties"] = map[string]any{"type": "string"}
+				case "i":
+					m["additionalProperties"] = map[string]any{"type": "integer"}
+				}
+				allOf = append(allOf, m)
+				if k == "" {
+					terms = append(terms, "None")
+				} else {
+					terms = append(terms, "(Some "+gendoc.CoqStr(goOf[k])+")")
+				}
+			}
+			spec, _ := json.Marshal(map[string]any{"openapi": "3.0.3", "info": map[string]any{"title": "m", "version": "1"}, "paths": map[string]any{},
+				"components": map[string]any{"schemas": map[string]any{"Merged": map[string]any{"allOf": allOf}}}})
+			cfg := codegen.Configuration{PackageName: "gen", Generate: codegen.GenerateOptions{Models: true}}
+			cfg.OutputOptions.SkipPrune = true
+			cfg.Compatibility.OldMergeSchemas = true
+			replay := map[string]any{"spec": json.RawMessage(spec), "old_merge_schemas": true, "additional_properties_of_the_members": l}
+			r.Count(fmt.Sprintf("legacy-addl/%v", l), len(l) > 1)
+			r.Dist["legacy_additional_properties_lists"]++
+			obs := "None"
+			code, err := generate(spec, cfg)
+			if err == nil {
+				obs = "(Some None)"
+				if p, perr := parseGo(code); perr == nil {
+					fields, _ := structFields(p, "Merged")
+					decl := map[string]bool{}
+					for _, dn := range p.declNames() {
+						decl[dn] = true
+					}
+					for _, f := range fields {
+						if f.GoName == "AdditionalProperties" && decl["func Merged.UnmarshalJSON"] && decl["func Merged.MarshalJSON"] && decl["func Merged.Get"] && decl["func Merged.Set"] {
+							obs = "(Some (Some " + gendoc.CoqStr(strings.TrimPrefix(f.Type, "map[string]")) + "))"
+						}
+					}
+				}
+			} else if !strings.Contains(err.Error(), "incompatible types") {
+				r.Violate("allof_generation_fails", fmt.Sprintf("legacy merge of members with additional properties %v: %s", l, trunc(err.Error(), 200)), replay)
+				continue
+			}
+			vcases.Add(fmt.Sprintf("([%s], %s)", strings.Join(terms, "; "), obs), replay)
+			// the statement: kept (with the member's type) as soon as some member has them, unless two disagree
+			types := map[string]bool{}
+			for _, k := range l {
+				if k != "" {
+					types[goOf[k]] = true
+				}
+			}
+			want := "(Some None)"
+			if len(types) == 1 {
+				for t := range types {
+					want = "(Some (Some " + gendoc.CoqStr(t) + "))"
+				}
+			} else if len(types) > 1 {
+				want = "None"
+			}
+			if obs != want {
+				r.Violate("allof_old_mode_additional_properties_dropped", fmt.Sprintf("legacy merge, additional properties of the members %v: observed %s, the statement gives %s", l, obs, want), replay)
+			}
+		}
+		vcases.WriteTo(r)
 	}
 	// ---- end to end: members that disagree on type or format are rejected, in either order, referenced or inline
 	for _, x := range prims {
@@ -603,5 +729,5 @@ func runC10(r *Report, rng *rand.Rand, thorough bool) {
 			r.Violate(w.sig, msg, map[string]any{"spec": json.RawMessage(w.spec)})
 		}
 	}
-	r.Rule = "hook level: pairs of schemas over type {absent, object, string} x format x required x properties (4 names, 2 value types) x additionalProperties {absent, true, false, schema s, schema i} x nullable through mergeOpenapiSchemas vs the model (result or rejection) and vs the statement; end to end: allOf lists of 1-3 compatible members (alternately $ref and inline, overlapping identical properties, additionalProperties true/false/schema) in EVERY permutation x {flat, first two members nested by reference, nested inline, nested behind a one-member allOf by reference / inline} x old/new merge mode through codegen.Generate, struct fields (names, pointer-ness from required, additional-properties type) vs the union of the members and equal across permutations; one component shared by 2-3 compositions (reference first / last, emitted before / after them): every type has exactly its own members' properties; the two refuted clauses replayed; non-trivial = at least two members / a successful merge"
+	r.Rule = "hook level: pairs of schemas over type {absent, object, string} x format x required x properties (4 names, 2 value types) x additionalProperties {absent, true, false, schema s, schema i} x nullable through mergeOpenapiSchemas vs the model (result or rejection) and vs the statement; end to end: allOf lists of 1-3 compatible members (alternately $ref and inline, overlapping identical properties, additionalProperties true/false/schema) in EVERY permutation x {flat, first two members nested by reference, nested inline, nested behind a one-member allOf by reference / inline} x old/new merge mode through codegen.Generate (old mode: the additional-properties field and its accessors / marshallers present together, in every order; every list of 1-3 inline members over {no, untyped, string, integer} additional properties vs the model's fold), struct fields (names, pointer-ness from required, additional-properties type) vs the union of the members and equal across permutations; one component shared by 2-3 compositions (reference first / last, emitted before / after them): every type has exactly its own members' properties; the two refuted clauses replayed; non-trivial = at least two members / a successful merge"
 }
